@@ -152,8 +152,8 @@ class Gate:
         self.open = threading.Event()
         self.waiting = 0
         self.lock = threading.Lock()
-        self.job_of_thread = {}       # thread ident -> job name
-        self.released = set()         # job names let through individually
+        self.job_of_thread = {}       # thread ident -> id(job)
+        self.released = set()         # jobs (by id) let through individually
 
     def __call__(self, label, method):
         if method in ('set_power', 'set_color'):
@@ -351,11 +351,16 @@ class Scenario:
                 jc.stops.append(name)
                 r = orig()
                 if jc.responsive:
-                    jc.gate.released.add(name)
+                    # this job only: a later job of the same name is parked
+                    # again (letting it through by name made it look parked
+                    # for the 2 ms of its gate visit and then finish by
+                    # itself -- a false "job survives stop-all", 1 in 60 000
+                    # sessions)
+                    jc.gate.released.add(id(job))
                 return r
 
             def execute():
-                jc.gate.job_of_thread[threading.get_ident()] = name
+                jc.gate.job_of_thread[threading.get_ident()] = id(job)
                 return orig_exec()
             job.request_stop, job.execute = request_stop, execute
 
@@ -462,7 +467,8 @@ class Scenario:
         # jobs whose thread is alive right now (held at the gate)
         alive_before = [a.name for a in
                         [self.jc.get_current()] + list(self.jc._background.values())
-                        if a is not None and a.is_running()]
+                        if a is not None and a.is_running()
+                        and id(a._job) not in self.gate.released]
         current_before = self.jc.get_current()
         queued_before = [a.name for a in self.jc.get_queued()]
         _AUDIT_ON[0] = True
